@@ -82,3 +82,36 @@ theorem smCertOk_sound (n : Nat) (P1 P2 : List (List Nat)) (V1 V2 : List (List I
     exact hdual
 
 #print axioms smCertOk_sound
+
+/-! ## Standalone stability checker -/
+
+/-- the executable stability test decides `StableSM` (used for outputs without an optimality certificate) -/
+theorem stableB_iff (n : Nat) (P1 P2 : List (List Nat)) (mu inv : List Nat)
+    (hp : isPermWith n mu inv = true) :
+    stableB n P1 P2 mu inv = true ↔
+      StableSM (fun a b : Fin n => rankOf P1 a b) (fun b a : Fin n => rankOf P2 b a) (permOfLists n mu inv hp) := by
+  have hmu : ∀ a : Fin n, ((permOfLists n mu inv hp) a : Nat) = mu.getD a n := fun _ => rfl
+  have hinv : ∀ b : Fin n, ((permOfLists n mu inv hp).symm b : Nat) = inv.getD b n := fun _ => rfl
+  constructor
+  · intro hstab a b hblock
+    have h1 := (allLt_iff _ _).mp ((allLt_iff _ _).mp hstab a a.2) b b.2
+    simp only [Bool.not_eq_true', Bool.and_eq_false_iff, decide_eq_false_iff_not] at h1
+    rw [← hmu, ← hinv] at h1
+    rcases h1 with h1 | h1
+    · exact h1 hblock.1
+    · exact h1 hblock.2
+  · intro hst
+    unfold stableB
+    rw [allLt_iff]; intro a ha
+    rw [allLt_iff]; intro b hb
+    have := hst ⟨a, ha⟩ ⟨b, hb⟩
+    simp only [hmu, hinv] at this
+    simp only [Bool.not_eq_true', Bool.and_eq_false_iff, decide_eq_false_iff_not]
+    by_cases h : rankOf P1 a b < rankOf P1 a (mu.getD a n)
+    · right; intro h2; exact this ⟨h, h2⟩
+    · left; exact h
+
+/-- total value as an integer: the `Rat`-valued `weightOf` sum is the cast of the integer sum -/
+theorem weightOf_sum_cast (n : Nat) (V1 V2 : List (List Int)) (ν : Equiv.Perm (Fin n)) :
+    ∑ a : Fin n, weightOf V1 V2 a (ν a) = ((∑ a : Fin n, (intOf V1 a (ν a) + intOf V2 (ν a) a) : Int) : ℚ) := by
+  simp [weightOf]
